@@ -108,6 +108,14 @@ def tableReport : String :=
 def handle (line : String) : String :=
   match line.splitOn " " with
   | ["TABLE"] => tableReport
+  | ["GLUE"] =>
+    "\t".intercalate ((gluedPairs Emboss.Generated.FmtTable.formatters Emboss.Generated.FmtTable.grammar).map
+      (fun p => p.1 ++ " " ++ p.2))
+  | ["GLUECHECK"] =>
+    if gluedOK Emboss.Generated.FmtTable.formatters Emboss.Generated.FmtTable.grammar then "ok"
+    else "bad " ++ "\t".intercalate
+      (((gluedPairs Emboss.Generated.FmtTable.formatters Emboss.Generated.FmtTable.grammar).filter
+        (fun p => !(allowedGlued.contains p || knownBadGlued.contains p))).map (fun p => p.1 ++ " " ++ p.2))
   | "FMT" :: iw :: items =>
     match iw.toNat?, parseItems items [] none with
     | some iw, some t =>
